@@ -29,7 +29,7 @@ ASSUMPTIONS = ["the approved constants are those of vf/oracle/approved.py (copie
                "BillingModel uses the legacy daily profile"]
 REQUIRED_REACH = {"ctor.locked_rejected": 300, "ctor.developer_accepted": 150, "ctor.invalid_rejected": 100,
                   "ctor.nondeveloper_accepted": 40, "ctor.explicit_default_accepted": 100, "defaults.compared": 7,
-                  "validator.check_developer_mode.calls": 500, "stored.param_built": 20, "stored.fitted": 2,
+                  "validator.check_developer_mode.calls": 500, "stored.param_built": 20, "stored.fitted": 2, "stored.hourly_fit_with_settings_snapshot": 3, "stored.hourly_fit_used_a_supplemental_column": 2,
                   "hourly.valid_accepted": 50, "hourly.invalid_rejected": 70, "cross.judged": 30}
 EXHAUSTIVE = True
 
@@ -408,10 +408,15 @@ def fitted(spec, keys, hist):
         if st[0] == "billing":
             from vf.gen import billing_reads
             tdf, bdf, _ = billing_reads(rng)
-            m = em.BillingModel().fit(em.BillingBaselineData(tdf.join(bdf), is_electricity_data=True), ignore_disqualification=True)
+            model = em.BillingModel()
+            want = norm(model.settings.model_dump())           # snapshot at construction, before any fit
+            m = model.fit(em.BillingBaselineData(tdf.join(bdf), is_electricity_data=True), ignore_disqualification=True)
         else:
-            m = em.DailyModel(model=st[0], settings=st[1]).fit(em.DailyBaselineData(df, is_electricity_data=True), ignore_disqualification=True)
-        want = norm(m.settings.model_dump())
+            model = em.DailyModel(model=st[0], settings=copy.deepcopy(st[1]))
+            want = norm(model.settings.model_dump())
+            m = model.fit(em.DailyBaselineData(df, is_electricity_data=True), ignore_disqualification=True)
+        if norm(m.settings.model_dump()) != want:
+            add("stored-settings-differ", "fitted %s: model.settings changed during fit" % which, family=st[0])
         if st[0] == "billing":
             want["developer_mode"] = True
         got = norm(m.to_dict()["settings"])
@@ -422,15 +427,40 @@ def fitted(spec, keys, hist):
         if norm(js) != want:
             add("stored-settings-differ", "fitted %s: to_json settings differ" % which, family=st[0])
     else:
-        df = synth_hourly(days=120, seed=rng, ghi="solar" in which)
+        df = synth_hourly(days=120, seed=rng, ghi="solar" in which, occupancy="supp" in which)
         st = {"hourly:custom": dict(seed=3, temperature_bin={"bin_width": 10}, elasticnet={"alpha": 0.05}, cvrmse_threshold=1.2),
-              "hourly:solar-robust": dict(seed=4, scaling_method="robustscaler", temporal_cluster={"n_cluster_upper": 8})}[which]
-        m = em.HourlyModel(settings=st).fit(em.HourlyBaselineData(df, is_electricity_data=True), ignore_disqualification=True)
-        want = norm(m.settings.model_dump())
+              "hourly:solar-robust": dict(seed=4, scaling_method="robustscaler", temporal_cluster={"n_cluster_upper": 8}),
+              "hourly:supp": dict(seed=0, supplemental_time_series_columns=["occupancy"]),
+              "hourly:supp-explicit": dict(seed=5, train_features=["temperature"], supplemental_time_series_columns=["occupancy"]),
+              "hourly:supp-object": dict(seed=6, supplemental_time_series_columns=["occupancy"]),
+              "hourly:solar-supp-object": dict(seed=7, supplemental_time_series_columns=["occupancy"], train_features=["temperature", "ghi"])}[which]
+        given = copy.deepcopy(st)
+        if which.endswith("-object"):
+            from opendsm.eemeter.models.hourly import settings as HS
+            given = (HS.HourlySolarSettings if "solar" in which else HS.HourlyNonSolarSettings)(**copy.deepcopy(st))
+            handed = norm(given.model_dump())
+        model = em.HourlyModel(settings=given)
+        built = norm(model.settings.model_dump())          # what the model was built with
+        m = model.fit(em.HourlyBaselineData(df, is_electricity_data=True), ignore_disqualification=True)
+        I.reach("stored.hourly_fit_with_settings_snapshot")
+        if "supp" in which:
+            if "occupancy" not in m.to_dict().get("ts_features", m._ts_features):
+                raise RuntimeError("premise: the supplemental column was not used by the fit")
+            I.reach("stored.hourly_fit_used_a_supplemental_column")
+        if which.endswith("-object") and norm(given.model_dump()) != handed:
+            add("callers-settings-object-changed-by-fit", "fitted %s: the settings object handed to the constructor changed in %s" % (
+                which, [k for k in handed if norm(given.model_dump()).get(k) != handed[k]]), family="hourly")
+        want = dict(built)
+        if not built.get("train_features"):
+            # features not fixed at construction: fit records the default for the columns present (documented by add_default_features)
+            want["train_features"] = ["temperature", "ghi"] if "ghi" in df.columns else ["temperature"]
         got = norm(m.to_dict()["settings"])
         I.reach("stored.fitted")
         if got != want:
-            add("stored-settings-differ", "fitted %s: to_dict()['settings'] differs in %s" % (which, [k for k in want if got.get(k) != want[k]]), family="hourly")
+            add("stored-settings-differ", "fitted %s: to_dict()['settings'] differs from what the model was built with in %s" % (
+                which, {k: (want[k], got.get(k)) for k in want if got.get(k) != want[k]}), family="hourly")
+        if norm(m.settings.model_dump()) != want:
+            add("stored-settings-differ", "fitted %s: model.settings differs from what the model was built with" % which, family="hourly")
         for k, v in st.items():
             w = merge(norm(A.HOURLY)[k], norm(v)) if isinstance(v, dict) else norm(v)
             if got[k] != w:
@@ -444,8 +474,9 @@ def fitted(spec, keys, hist):
 
 def gen_cases(tier, seed):
     cases = [dict(kind="family", family=f) for f in ("current", "legacy", "billing", "hourly")]
-    fits = ["daily:current-nondev", "hourly:custom"] if tier == "quick" else \
-        ["daily:current-nondev", "daily:legacy-dev", "daily:current-dev", "daily:billing-default", "hourly:custom", "hourly:solar-robust"]
+    fits = ["daily:current-nondev", "hourly:custom", "hourly:supp", "hourly:supp-explicit", "hourly:supp-object"] if tier == "quick" else \
+        ["daily:current-nondev", "daily:legacy-dev", "daily:current-dev", "daily:billing-default", "hourly:custom", "hourly:solar-robust",
+         "hourly:supp", "hourly:supp-explicit", "hourly:supp-object", "hourly:solar-supp-object"]
     cases += [dict(kind="fitted", which=w, batch=i) for i, w in enumerate(fits)]
     return cases
 
